@@ -36,7 +36,7 @@ FLOOR = {"dirichlet:axis0:fold>1": 1, "dirichlet:axis-nonlast": 1, "ndarray:fold
 
 
 def plan(tier, seed):
-    n = 100 if tier == "quick" else 19200
+    n = 200 if tier == "quick" else 19200
     return [{"kind": "case", "k": k, "seed": seed} for k in range(n)]
 
 
